@@ -1,32 +1,32 @@
 SPECIFICATION Spec
 CONSTANTS
-  MaxStmts = 3
+  MaxStmts = 2
   MaxDepth = 3
   MaxUnits = 1
-  MaxVar = 30
+  MaxVar = 1
   UnitKinds <- SubOnly
-  ConKinds <- SweepCons
+  ConKinds <- Empty
   SpecKinds <- Empty
-  SimpleV <- SimpleAll
-  DeclV <- Set1
+  SimpleV <- StrSplitS
+  DeclV <- StrSplitDecl
   UseV <- Set1
   FormatV <- Set1
   CompV <- Set1
   TbindV <- Set1
   NameChoices <- Set1
-  EndForms <- Set1
+  EndForms <- Set02
   LabelStmts = FALSE
   Contains = FALSE
-  PKinds <- KMut
+  PKinds <- KCmt
   MaxEdits = 1
   InsSet <- InsSmall
   MinEdits = 0
   Randomised = FALSE
-  DumpMod = 157
+  DumpMod = 1
   NRepl = 17
-  RichOnly = TRUE
+  RichOnly = FALSE
   NeedStruct = FALSE
-  MaxRich = 1
+  MaxRich <- Unlimited
   NCmtCls = 8
   NCppForms = 27
   NGarb = 7
